@@ -52,6 +52,6 @@ tables = {"FIXED": "\n".join(fixed), "OPEN": "\n".join(openf), "SEEDED": "\n".jo
 p = os.path.join(V, "DESIGN.md")
 s = open(p).read()
 for k, t in tables.items():
-    s = re.sub(r"<!-- AUTO:%s -->.*?<!-- /AUTO:%s -->" % (k, k), "<!-- AUTO:%s -->\n%s\n<!-- /AUTO:%s -->" % (k, t, k), s, flags=re.S)
+    s = re.sub(r"<!-- AUTO:%s -->.*?<!-- /AUTO:%s -->" % (k, k), lambda _m, k=k, t=t: "<!-- AUTO:%s -->\n%s\n<!-- /AUTO:%s -->" % (k, t, k), s, flags=re.S)
 open(p, "w").write(s)
 print("tables written:", {k: t.count("\n") - 1 for k, t in tables.items()})
